@@ -123,6 +123,37 @@ Theorem hidden_file_indistinguishable_from_absent :
           sfilter parse_ims prime override refuses vary_tuple vary_header clear_alias c now ops.
 Proof. exact hidden_file_indistinguishable_lemma. Qed.
 
+(** "whether or not ... file caches are enabled": the server with its file cache as state ([run_gf]: a map from the path
+    text to the content or to "no such file"; [read::file] consults it, [read::file_cached] also fills it) — for every
+    initial content of the file cache (also stale and negative entries), file cache on or off, and whatever reads fill
+    it — is observed in every history exactly as the server without file cache whose files are what the server HOLDS
+    for each path: the cache entry if there is one, else the disk. *)
+Theorem file_cache_transparent :
+  forall fix_ext fix_lock fix_errline cors on disk reads fc0
+         cache_on ims_on fix_ovkey fix_clear fix_svary fix_qmkey fix_ims sfilter parse_ims prime override refuses
+         vary_tuple vary_header clear_alias c now ops,
+    let held := fc_view on disk fc0 in
+    run_gf fix_ext fix_lock fix_errline cors on disk reads fc0 cache_on ims_on fix_ovkey fix_clear fix_svary fix_qmkey fix_ims
+           sfilter parse_ims prime override refuses vary_tuple vary_header clear_alias c now ops =
+    run_g fix_ext fix_lock fix_errline cors (fs_of held) (errpage_of held) (tmpl_of held) cache_on ims_on fix_ovkey fix_clear
+          fix_svary fix_qmkey fix_ims sfilter parse_ims prime override refuses vary_tuple vary_header clear_alias c now ops.
+Proof. exact file_cache_transparent_lemma. Qed.
+
+(** ... hence the property with the file cache in the picture ("content of a file" = the content the server holds for it) *)
+Theorem guarded_content_confined_with_file_cache :
+  forall (fix_errline cors on : bool) (disk : bytes -> option bytes) reads (fc0 : fcache) (secret : bytes),
+    let held := fc_view on disk fc0 in
+    (forall t c, fs_of held t = Some c -> contains_sub secret c = true -> guarded t c = true) ->
+    (forall s, contains_sub secret (errpage_of held s) = false) ->
+    (forall args b, contains_sub secret (tmpl_of held args b) = true -> contains_sub secret b = true) ->
+    (cors = true -> contains_sub secret (ps_body cors_pst) = false) ->
+  forall cache_on ims_on fix_ovkey fix_clear fix_svary fix_qmkey fix_ims sfilter parse_ims prime override refuses
+         vary_tuple vary_header clear_alias now ops,
+    Forall2 (reply_ok (fs_of held) secret prime) ops
+      (run_gf true true fix_errline cors on disk reads fc0 cache_on ims_on fix_ovkey fix_clear fix_svary fix_qmkey fix_ims
+              sfilter parse_ims prime override refuses vary_tuple vary_header clear_alias [] now ops).
+Proof. exact guarded_content_confined_fcache_lemma. Qed.
+
 (** The statement is false of the code before the repairs (models selected by the switches):
     (a) extension lookup on the raw path: [GET /secret%2Eprivate], cache on or off; *)
 Theorem private_spelling_v0_refuted :
@@ -184,3 +215,11 @@ Example error_page_line_repaired :
   w_bodies (w_run_err w_err_line true true true true w_twins) =
     [(404, host_404_body w_err_line); (404, host_404_body w_err_line); (404, host_404_body w_err_line)].
 Proof. exact error_page_line_repaired_lemma. Qed.
+(** the file cache: a stale entry (the file was guarded when it was cached, the disk now holds a public text) and a
+    negative entry are what the server holds *)
+Example file_cache_view_example :
+  fc_view true (fun p => if beq p (B "public/a.txt") then Some (B "now public") else None)
+          [(B "public/a.txt", Some (B "!> hide")); (B "public/b.txt", None)] (B "public/a.txt") = Some (B "!> hide") /\
+  fc_view true (fun p => Some (B "on disk")) [(B "public/b.txt", None)] (B "public/b.txt") = None /\
+  fc_view false (fun p => Some (B "on disk")) [(B "public/b.txt", None)] (B "public/b.txt") = Some (B "on disk").
+Proof. vm_compute. repeat split; reflexivity. Qed.
